@@ -28,6 +28,9 @@ def run(ctx):
         for c in same:
             t = c["cfg"]
             keys = {("kk", t["owner"], t["kex"]), ("kc", t["owner"], t["cipher"]), ("ke", t["owner"], t["enc"]), ("xr", t["kex"], t["reuse"], t["to1"])}
+            if "3072" not in t["owner"]:
+                # the fast key kinds: every (key kind, key exchange, cipher) triple and every (key kind, encoding, reuse, via-TO1)
+                keys |= {("kkc", t["owner"], t["kex"], t["cipher"]), ("kert", t["owner"], t["enc"], t["reuse"], t["to1"])}
             if not keys <= need or rnd.random() < 0.02:
                 need |= keys
                 chosen.append(c)
